@@ -10,6 +10,12 @@
    relation is empty), the symbols of recognised alias equations are declared (no alias with
    `time`), no alias equation is redundant (da_nored; true for regular models), plus NoDup of the
    algebraic variables.  The contradictory pair (d2f54aa) is covered: the equation is kept.
+   Round 4: the value-into-value loop on ACYCLIC definitions that CONVERGED is proved to reach a
+   closed form (C15_loop_closed_form: resolved values mention no defined variable and only symbols
+   of the original values); hence the eliminable pass keeps the model closed
+   (C15_closed_eliminable_acyclic) — exactly what the cyclic findings violate
+   (C15_closed_cyclic_refuted).  C15_closed_simplify_once_partial composes closedness over the
+   seven passes with that pass PROVED and the other six ASSUMED pass by pass.
    STILL OPEN (`_partial`): composed C15_closed.  Missing lemmas: closedness of detect_aliases
    (symbols of the substituted values are the canonical variables, which stay declared: needs
    `canonical in all_states` from the `bad` test) and of the three value loops for chained
@@ -19,7 +25,7 @@
    known finding) and is proved under the hypothesis that carves exactly that out. *)
 From Coq Require Import ZArith QArith Qcanon List Bool PArith.
 Import ListNotations.
-From PV Require Import Model.C14_simplify Proofs.C14_simplify Proofs.C14_compose Proofs.C15_square Proofs.C14_example.
+From PV Require Import Model.C14_simplify Proofs.C14_simplify Proofs.C14_compose Proofs.C15_square Proofs.C15_closed Proofs.C14_example.
 
 (* eliminate_constant_assignments: every dropped equation is paired with exactly one removed
    algebraic variable (which becomes a constant); states and derivatives are untouched *)
@@ -99,6 +105,44 @@ Theorem C15_closed_eliminable (mt : list name) (m : model) :
               u = false -> has_dup vars = false -> defs <> [] -> In x vars -> occurs x e = false.
 Proof. exact (closed_eliminate_vars mt m). Qed.
 Print Assumptions C15_closed_eliminable.
+
+(* the fuelled substitution loop (model.py:553-562 / 593-602 / 894-903) on acyclic definitions,
+   when it converged: no resolved value mentions a defined variable, and every symbol of a resolved
+   value occurs in an original value *)
+Theorem C15_loop_closed_form (d : sub) :
+  acyclic d ->
+  let res := subst_fix SUBSTITUTE_LOOP_LIMIT (map fst d) (map snd d) in
+  snd res = true ->
+  let s := combine (map fst d) (fst res) in
+  (forall x v y w, In (x, v) s -> lookup y s = Some w -> occurs y v = false)
+  /\ (forall x, sym_in s x -> sym_in d x).
+Proof. exact (loop_closed_form d). Qed.
+Print Assumptions C15_loop_closed_form.
+
+(* `closed tm m`: every symbol of the remaining equations and initial equations is a declared
+   variable / parameter / constant of m or `time` (tm).  The eliminable pass preserves it for
+   acyclic assignments when no iteration-limit warning was raised *)
+Theorem C15_closed_eliminable_acyclic (tm : name) (mt : list name) (m : model) :
+  closed tm m -> acyclic (elim_defs mt m) -> failed (eliminate_vars mt m) = false ->
+  warned m = false -> warned (eliminate_vars mt m) = false ->
+  closed tm (eliminate_vars mt m).
+Proof. exact (closed_eliminate_vars_acyclic tm mt m). Qed.
+Print Assumptions C15_closed_eliminable_acyclic.
+
+(* composition over _simplify_once (any subset of the modelled options): PARTIAL — in
+   `passes_cl tm o` the eliminable pass carries the carve-out hypotheses (no eliminable state,
+   acyclic, converged) and is proved; the hypothesis of each of the other six passes is its own
+   closedness on the model reaching it.  Missing lemmas: closedness of replace_parameter/constant_
+   expressions and replace_constant_values (follows from C15_loop_closed_form + "the values of
+   parameters/constants only mention declared symbols", an invariant not yet tracked), of
+   replace_parameter_values and eliminate_constant_assignments (bookkeeping only), of
+   detect_aliases (canonical variables stay declared: relinv + the `bad` test) and of the
+   eliminable-states path *)
+Theorem C15_closed_simplify_once_partial (tm : name) (o : options) (m : model) :
+  run_ok (passes_cl tm o) m -> closed tm m -> failed (simplify_once o m) = false ->
+  closed tm (simplify_once o m).
+Proof. exact (simplify_once_closed_partial tm o m). Qed.
+Print Assumptions C15_closed_simplify_once_partial.
 
 (* cyclic eliminable assignments '_e1 = _e2; _e2 = _e1; a3 = _e1 + 1': the value loop converges
    to the identity substitution (no warning); the only remaining unknown is a3 but the remaining
